@@ -346,6 +346,9 @@ func c16run(c *evid.Ctx, r *gen.Rand, run int) {
 		return
 	}
 	c.Count("announces that finished", 1)
+	mu.Lock()
+	annAtFinish := len(announces)
+	mu.Unlock()
 	close(stopReading)
 	select {
 	case <-consumerDone:
@@ -357,6 +360,9 @@ func c16run(c *evid.Ctx, r *gen.Rand, run int) {
 	mu.Lock()
 	anns := append([]annSeen(nil), announces...)
 	mu.Unlock()
+	if len(anns) > annAtFinish {
+		c.Violation("finished-signalled-before-the-announces-were-sent", fmt.Sprintf("%s: %d announce_peer queries had reached the socket when Finished() fired, %d more followed", desc, annAtFinish, len(anns)-annAtFinish), nil)
+	}
 	// T: responders with a string token, replied to before any stop.
 	type member struct {
 		nd *c16node
